@@ -3,8 +3,11 @@ from propslib import fn_scope
 
 PROP = dict(
     extract=["editor"],
-    lean_targets=["Chewing.Props.C06", "Chewing.Props.C06Layouts"],
+    lean_targets=["Chewing.Props.C06", "Chewing.Props.C06Layouts", "Chewing.Props.EditorTie"],
     runs=[dict(bin="editor"), dict(bin="editor", args=["--script", "c06"], tag="editor-c06-sweep"),
+          # closed-world BFS of the real editor (bfs.rs): one record per (reachable state, operation); the configurations that
+          # CLOSED are listed in the evidence (coverage.exhaustive_closed_worlds) - for those the tie is exhaustive (EditorTie.lean)
+          dict(bin="editor", args=["--bfs", "all"], tag="editor-bfs", timeout=1500, timeout_thorough=20000),
           dict(bin="capi_props", tag="capi_props", args=["--histories", "300", "--calls", "40"], args_thorough=["--histories", "6000", "--calls", "40"])],
     scope=fn_scope("ed key"),
     level="proof",
